@@ -34,6 +34,24 @@ def run(rep, work, rng, tier):
     for k in ([1, 2, 3, 4, 5, 8, 16, 17] if tier == 'quick' else list(range(1, 70))):
         for how in ('plain', 'sized', 'copied'):
             add('element-appended-to-its-own-container', 'self%d%s' % (k, how), ['mk.self %d %d %s' % (k, j, how) for j in sorted(set([0, k // 2, k - 1]))])
+    # the per-point / per-channel lists (LABELS, DESCRIPTIONS, UNITS, SCALE, OFFSET) set by the caller to a length other than the
+    # count, then a point or a channel is added: the updater rebuilds every list from the stored one
+    from lib.harness import hx
+    for i in range(24 if tier == 'quick' else 1200):
+        lines = ['new 0']
+        npts = rng.choice([0, 1, 2]); nch = rng.choice([0, 1, 2])
+        for k in range(npts): lines.append('point 0 ' + hx(b'p%d' % k))
+        for k in range(nch): lines.append('analog 0 ' + hx(b'c%d' % k))
+        for _ in range(rng.choice([1, 2, 3])):
+            grp, nm, ty = rng.choice([(b'ANALOG', b'SCALE', 'F'), (b'ANALOG', b'OFFSET', 'I'), (b'ANALOG', b'UNITS', 'S'), (b'ANALOG', b'LABELS', 'S'), (b'ANALOG', b'DESCRIPTIONS', 'S'),
+                                      (b'POINT', b'LABELS', 'S'), (b'POINT', b'DESCRIPTIONS', 'S'), (b'POINT', b'UNITS', 'S')])
+            k = rng.choice([0, 1, 3, 4, 7])
+            if ty == 'F': setl = ('P.set F 0 %d %s' % (k, ' '.join(['3f800000'] * k))).rstrip()
+            elif ty == 'I': setl = ('P.set I 0 %d %s' % (k, ' '.join(['5'] * k))).rstrip()
+            else: setl = ('P.set S 0 %d %s' % (k, ' '.join(hx(b'u%d' % j) for j in range(k)))).rstrip()
+            lines += ['P.new %s x' % hx(nm), setl, 'param 0 ' + hx(grp)]
+        lines += ['analog 0 ' + hx(b'Fx'), 'snap 0', 'point 0 ' + hx(b'Mk'), 'snap 0', 'analog 0 ' + hx(b'Fy'), 'snap 0', 'print 0', 'drop 0']
+        add('label-like lists of another length, then a column is declared', 'lst%d' % i, lines)
     (cres, cown, cerr), (mres, mown, merr) = harness.run_both(cases, work, shared=shared, flavor='asan',
         cxx_env={'ASAN_OPTIONS': 'detect_leaks=1:abort_on_error=1:new_delete_type_mismatch=1:alloc_dealloc_mismatch=1'})
     bad = 0; nd = 0; skipped_ub = 0; clean = 0
